@@ -21,6 +21,7 @@ import (
 func TestMain(m *testing.M) {
 	vh.Rule("rapid: (data type incl. each legal width of the nullable families, value) drawn uniformly over 46 type/width pairs with boundary-biased values (integer boundaries, NaN/Inf/-0 bit patterns, money over int64/int32, numerics of every precision/scale with 0,1,10^k,10^k-1 and random digits, days 0001-01-01..9999-12-31 with bias to year boundaries, leap days and pre-1900, ticks from (tick, sub-half-tick jitter), microsecond times, byte/Unicode strings of length 1..max from all planes); round trip DataType.Bytes -> DataType.GoValue and the package leg PARAMFMT/PARAMS and ROWFMT2/ROW (formats decoded from reference encodings); exhaustive: every uint8, int16, uint16, bit, every day 0001..9999 and every tick of a day (thorough; stride-sampled in quick), NULL for every nullable type. Non-trivial: value is neither NULL nor the type's zero value; distinct by (type,width,value)")
 	vh.Assume("time.Time values are UTC; DATE values are at midnight; TIME/DATETIME values are the exact time of a 1/300 s tick plus at most 1.6 ms so rounding cannot leave the day; smalldatetime days 0..65535; unitext without trailing NUL (decoder documents trimming); empty strings/byte strings excluded (they encode like NULL)")
+	vh.Rule("also: batches of 2..8 values converted in goroutines at the same time (separate race-detector run)")
 	vh.Main(m, "C04")
 }
 
@@ -553,4 +554,44 @@ func TestArbitraryInstants(t *testing.T) {
 		return c
 	}
 	vh.Check(t, "TestArbitraryInstants", vh.N(40000, 800000), gen, runInstant)
+}
+
+// ---- several goroutines converting at the same time
+
+func TestConcurrentRoundTrips(t *testing.T) {
+	gen := func(rt *rapid.T) []valCase {
+		n := rapid.IntRange(2, 8).Draw(rt, "goroutines")
+		var cs []valCase
+		tw := valgen.GenTW(rt)
+		oneType := rapid.Bool().Draw(rt, "onetype")
+		for i := 0; i < n; i++ {
+			if !oneType {
+				tw = valgen.GenTW(rt)
+			}
+			v := valgen.Gen(rt, tw)
+			if len(v.S) > 200 {
+				v = valgen.GenFor(rt, tw, v.Prec, v.Scal, 200)
+			}
+			if len(v.B) > 200 {
+				v.B = v.B[:200]
+			}
+			cs = append(cs, valCase{V: v})
+		}
+		return cs
+	}
+	run := func(cs []valCase) *vh.Failure {
+		f := vh.Together(cs, func(c valCase) *vh.Failure {
+			for k := 0; k < 20; k++ {
+				if f := roundTrip(c.V); f != nil {
+					return f
+				}
+			}
+			return nil
+		})
+		if f == nil {
+			vh.Label("concurrent-round-trips")
+		}
+		return f
+	}
+	vh.Check(t, "TestConcurrentRoundTrips", vh.N(1500, 30000), gen, run)
 }
